@@ -11,7 +11,7 @@ import (
 	"verifharness/hxlib"
 )
 
-const rule = "A case is one history on a fresh database (hashmap ±shadow-delete, bbolt, a harness-owned injected storage, the runtime registry): " +
+const rule = "A case is one history on a fresh database (hashmap ±shadow-delete, bbolt, a harness-owned injected storage, the runtime registry, a push-only injected database built on storage.InjectBase as it comes — ReadOnly() true: only Controller.PushUpdate reaches its subscribers, every write through an interface is refused): " +
 	"query objects (key prefix × condition tree over N/S, shared between subscriptions and hooks), subscribe/cancel through interfaces with all " +
 	"Local/Internal/AlwaysMakeSecret/AlwaysMakeCrownjewel/AlwaysSetAbsoluteExpiry combinations, hook register/cancel (phases × pass/veto/replace), Put/PutNew/Delete/MakeSecret/" +
 	"MakeCrownJewel/SetAbsoluteExpiry/SetRelativateExpiry (duration 0 or -1)/InsertValue/Get/Exists/PushUpdate on keys inside and outside the prefixes with all flag combinations, feeds drained after every " +
@@ -234,7 +234,7 @@ func (g *seqGen) op() {
 			g.lifeOp()
 			return
 		}
-		if g.kind == "inj" || g.kind == "reg" || rng.Intn(100) < 30 {
+		if g.kind == "inj" || g.kind == "reg" || g.kind == "pushonly" || rng.Intn(100) < 30 {
 			g.emit(fmt.Sprintf("push %s %d %s %s", g.key(), rng.Intn(10), pick(rng, genStrs), pick(rng, genFlags)))
 			g.afterWrite()
 			g.writes++
@@ -498,6 +498,43 @@ func genSameHook(r *hxlib.Run) hxlib.Case {
 	return hxlib.Case{Lines: g.lines, Kind: "seq:samehook", NonTrivial: g.writes > 0}
 }
 
+// genPushOnly: an injected database of the third kind — its storage is storage.InjectBase as it comes: read-only
+// (ReadOnly() == true, the base's default), it accepts no Put and serves nothing; everything its subscribers ever see
+// is pushed through Controller.PushUpdate. Subscriptions of every privilege combination and query (made up front and
+// during the history, cancelled, cancelled twice), pushes of live / deleted-marked / secret / crown-jewel / expired
+// records for keys inside and outside the queries' prefixes, hooks registered (a push calls none), and the refused
+// operations in between: Put / PutNew / Delete / MakeSecret … through every interface (ErrReadOnly, nothing delivered,
+// no hook called), Get / Exists (nothing stored).
+func genPushOnly(r *hxlib.Run, nops int) hxlib.Case {
+	g := &seqGen{r: r, rng: r.Rng, kind: "pushonly", drain: r.Rng.Intn(100) < 70, keys: genKeys}
+	rng := g.rng
+	g.emit("db pushonly 0")
+	for i, n := 0, 1+rng.Intn(3); i < n; i++ {
+		g.newQuery()
+	}
+	for i, n := 0, 1+rng.Intn(4); i < n; i++ {
+		g.emit(fmt.Sprintf("sub %d %s %d", g.nsub, pick(rng, genIfaces), rng.Intn(g.nq)))
+		g.live = append(g.live, g.nsub)
+		g.nsub++
+	}
+	for i, n := 0, rng.Intn(3); i < n; i++ {
+		g.newHook(rng.Intn(g.nq))
+	}
+	for i := 0; i < nops; i++ {
+		if rng.Intn(100) < 55 {
+			fl := pick(rng, genFlags)
+			g.emit(fmt.Sprintf("push %s %d %s %s", g.key(), rng.Intn(10), pick(rng, genStrs), fl))
+			g.afterWrite()
+			g.writes++
+			r.Count("pushonly:push:" + fl)
+			continue
+		}
+		g.op()
+	}
+	g.emit("drain", "sizes")
+	return hxlib.Case{Lines: g.lines, Kind: "seq:pushonly", NonTrivial: g.writes > 0}
+}
+
 func genSequential(r *hxlib.Run, kind string, shadow int, nops int, delayed bool) hxlib.Case {
 	g := &seqGen{r: r, rng: r.Rng, kind: kind, drain: true, keys: genKeys}
 	if kind == "reg" {
@@ -757,6 +794,9 @@ var corpus = [][]string{
 		"raw a/x", "put LI a/x 2 foo -", "raw a/x", "put LI b/x 2 foo -", "raw b/x", "unhook 0", "put LI a/x 3 foo -", "sizes"},
 	// the same value twice on one query object: called twice per matching operation, once after one cancel
 	{"db hashmap 0", "q 0 a T", "hook 0 0 p p s7", "rehook 1 0 0", "put LI a/x 1 foo -", "raw a/x", "get LI a/x", "unhook 0", "put LI a/x 2 foo -", "raw a/x", "get LI a/x", "unhook 0", "unhook 1", "put LI a/x 3 foo -", "sizes"},
+	// push-only injected database (storage.InjectBase as it comes, ReadOnly() == true): pushes are delivered, writes are refused
+	{"db pushonly 0", "q 0 a/ T", "q 1 - gt 2", "sub 0 LI 0", "sub 1 - 0", "sub 2 L 1", "hook 0 0 p p p", "push a/x 1 foo -", "push b/x 2 bar -", "push a/x 3 foo s", "push a/y 4 baz d", "push a/y 5 baz c",
+		"put LI a/x 5 foo -", "putnew - a/x 5 foo -", "raw a/x", "del LI a/x", "raw a/x", "get LI a/x", "raw a/x", "exists - a/x", "drain", "cancel 0", "push a/x 6 foo -", "drain", "sizes"},
 	// runtime registry: provider registered BEFORE the injection, subscription after it, push through the early provider's function
 	{"db regraw 0", "q 0 - T", "prov 0 a/", "sub 9 LI 0", "ppush 0 a/x 1 foo -", "put LI a/x 1 foo -", "raw a/x", "get LI a/x", "raw a/x", "exists LI a/x", "sizes", "inject", "inject", "sub 0 LI 0", "prov 1 b/", "prov 2 a/x/", "ppush 0 a/x 2 foo -", "drain",
 		"ppush 1 b/y 3 bar -", "ppush 0 zz 4 baz -", "ppush 1 a/x 5 foo d", "drain", "put LI a/x 6 foo -", "put LI b/x 7 foo -", "put LI c 8 foo -", "drain", "cancel 0", "ppush 0 a/x 9 foo -", "drain", "sizes"},
@@ -795,6 +835,9 @@ func gen(r *hxlib.Run, emit func(hxlib.Case)) {
 	}
 	for i, n := 0, r.Budget(300, 4000); i < n; i++ {
 		emit(genSameHook(r))
+	}
+	for i, n := 0, r.Budget(600, 8000); i < n; i++ {
+		emit(genPushOnly(r, 6+r.Rng.Intn(30)))
 	}
 	for i, n := 0, r.Budget(40, 400); i < n; i++ {
 		toks := []string{"hookdbs", pick(r.Rng, hookDbsBehs)}
